@@ -11,6 +11,7 @@ Driver for C20 (interactive, one flushed answer line per request line).
   pop <i>                       next announcement for client i:  K<hexkey>,…  |  F  |  none
   qlen                          pending announcements per client (stub)
   sget <hexkey>                 what the stub server holds under that key:  v=<value>|-  present=T|F
+  smatch <hexpat>               what the stub server holds under the keys matching that pattern:  ks=<hexkey>,… ps=<hexkey>=<value>,…
   op <command>                  one step of the client-side model → model=<out> q=<pending announcements per client>
   dump                          stub keyspace / model keyspace
 -/
@@ -34,6 +35,9 @@ def client? (n : Nat) (s : String) : Option Nat := s.toNat?.bind fun i => if i <
 def parseCOp? (n : Nat) : List String → Option CS.Op
   | ["get", c, k] => do pure (.get (← client? n c) (← key? k))
   | "getmany" :: c :: ks => do pure (.getMany (← client? n c) (← keys? ks))
+  | ["getmatch", c, p] => do pure (.getMatch (← client? n c) (← key? p))
+  | ["scan", c, p] => do pure (.scan (← client? n c) (← key? p))
+  | ["getexpire", c, k] => do pure (.getExpire (← client? n c) (← key? k))
   | ["exists", c, k] => do pure (.exists_ (← client? n c) (← key? k))
   | ["set", c, k, v, ttl, cond] => do
     pure (.set (← client? n c) (← key? k) (← parseCVal? v) (← parseTtl? ttl) (← parseCond? cond))
@@ -98,6 +102,12 @@ def step (st : DSt) (line : String) : DSt × String :=
     match key? k with
     | some key =>
       (st, s!"v={showOptCVal (srvValue st.stub key)} present={if st.stub.srv.ks.present key then "T" else "F"}")
+    | none => (st, "bad-op")
+  | ["smatch", p] =>
+    match key? p with
+    | some pat =>
+      let ks := Ref.matching st.stub.srv.ks pat
+      (st, showOut (.keys ks) ++ " " ++ showOut (.pairs (ks.filterMap fun k => (srvValue st.stub k).map fun v => (k, v))))
     | none => (st, "bad-op")
   | "op" :: ws =>
     match parseCOp? st.n ws with
